@@ -17,57 +17,67 @@ import (
 // not an order; a fresh goroutine per event that merely contends for a sync.Mutex does
 // not order anything (sync.Mutex is not FIFO and goroutine start order is unspecified).
 func checkAsyncSequencing(c *Ctx, p *Prog, R *BusRoles) {
-	f := R.LoopFn // the function holding the dispatch loop (PublishContext or its helper)
+	// go statements of the publisher: in the function holding the dispatch loop or in a helper
+	// it calls from there (not inside the dispatch function)
+	inDispatch := map[*ssa.Function]bool{}
+	for _, g := range reachFuncs(p, R.DispatchFn, PkgBus) {
+		inDispatch[g] = true
+	}
 	n := 0
-	for _, b := range f.Blocks {
-		for _, in := range b.Instrs {
-			g, ok := in.(*ssa.Go)
-			if !ok {
-				continue
-			}
-			n++
-			// the async arm: the go statement's block and its single-predecessor chain up
-			// to the test of the async flag
-			var arm []*ssa.BasicBlock
-			for blk := b; blk != nil; {
-				arm = append(arm, blk)
-				if len(blk.Preds) != 1 {
-					break
+	for _, f := range reachFuncs(p, R.LoopFn, PkgBus) {
+		if inDispatch[f] || f.Parent() != nil {
+			continue
+		}
+		for _, b := range f.Blocks {
+			for _, in := range b.Instrs {
+				g, ok := in.(*ssa.Go)
+				if !ok {
+					continue
 				}
-				pr := blk.Preds[0]
-				if iff, ok := pr.Instrs[len(pr.Instrs)-1].(*ssa.If); ok {
-					if tn, fld, _, ok := fieldLoad(iff.Cond); ok && tn == R.RegName() && fld == R.RegAsync {
+				n++
+				// the async arm: the go statement's block and its single-predecessor chain up
+				// to the test of the async flag
+				var arm []*ssa.BasicBlock
+				for blk := b; blk != nil; {
+					arm = append(arm, blk)
+					if len(blk.Preds) != 1 {
 						break
 					}
-				}
-				blk = pr
-			}
-			found := ""
-			for _, blk := range arm {
-				for _, x := range blk.Instrs {
-					switch y := x.(type) {
-					case *ssa.Send:
-						found = "channel send"
-					case ssa.CallInstruction:
-						if name, addr, ok := atomicOp(x); ok && (strings.HasPrefix(name, "Add") || strings.HasPrefix(name, "Swap") || strings.HasPrefix(name, "CompareAndSwap")) {
-							if tn, fld, _, ok := fieldOfAddr(addr); ok && !(tn == R.RegName() && fld == R.RegClaim) {
-								found = "atomic " + name + " on " + tn + "." + fld
-							}
+					pr := blk.Preds[0]
+					if iff, ok := pr.Instrs[len(pr.Instrs)-1].(*ssa.If); ok {
+						if tn, fld, _, ok := fieldLoad(iff.Cond); ok && tn == R.RegName() && fld == R.RegAsync {
+							break
 						}
-						if kind, mu, ok := mutexOp(y.Common()); ok && kind == "Lock" {
-							if tn, fld, _, ok := fieldOfAddr(mu); ok {
-								found = "critical section on " + tn + "." + fld
+					}
+					blk = pr
+				}
+				found := ""
+				for _, blk := range arm {
+					for _, x := range blk.Instrs {
+						switch y := x.(type) {
+						case *ssa.Send:
+							found = "channel send"
+						case ssa.CallInstruction:
+							if name, addr, ok := atomicOp(x); ok && (strings.HasPrefix(name, "Add") || strings.HasPrefix(name, "Swap") || strings.HasPrefix(name, "CompareAndSwap")) {
+								if tn, fld, _, ok := fieldOfAddr(addr); ok && !(tn == R.RegName() && fld == R.RegClaim) {
+									found = "atomic " + name + " on " + tn + "." + fld
+								}
+							}
+							if kind, mu, ok := mutexOp(y.Common()); ok && kind == "Lock" {
+								if tn, fld, _, ok := fieldOfAddr(mu); ok {
+									found = "critical section on " + tn + "." + fld
+								}
 							}
 						}
 					}
 				}
-			}
-			// the goroutine is handed an order token? (an argument other than the registration)
-			construct := "PublishContext/async-dispatch/publisher-side-sequencing"
-			if found != "" {
-				c.Discharge("C07.R3", construct, p.Pos(g.Pos()), "publisher-side sequencing effect present: "+found+" (its correctness is not decided)")
-			} else {
-				c.Violate("C07.R3", construct, p.Pos(g.Pos()), "async dispatch starts one goroutine per event and records nothing about the publish order in the publisher's goroutine (only WaitGroup.Add, which carries a count): an Async+Sequential handler processes events of one publisher in whatever order the goroutines win its mutex, not in publish order (README: 'preserves order')", nil)
+				// the goroutine is handed an order token? (an argument other than the registration)
+				construct := "PublishContext/async-dispatch/publisher-side-sequencing"
+				if found != "" {
+					c.Discharge("C07.R3", construct, p.Pos(g.Pos()), "publisher-side sequencing effect present: "+found+" (its correctness is not decided)")
+				} else {
+					c.Violate("C07.R3", construct, p.Pos(g.Pos()), "async dispatch starts one goroutine per event and records nothing about the publish order in the publisher's goroutine (only WaitGroup.Add, which carries a count): an Async+Sequential handler processes events of one publisher in whatever order the goroutines win its mutex, not in publish order (README: 'preserves order')", nil)
+				}
 			}
 		}
 	}
